@@ -249,8 +249,103 @@ Section Restored.
 
   Lemma mint_restored bh ti ic oc amt asset gp :
     mint_ptr d = Some (VR [VN bh; VN ti]) ->
-    (forall x, ctx_agrees D coin_info msg_info mint_ptr d T_InContract x -> True) ->
     ctx_agrees D coin_info msg_info mint_ptr d T_Mint
       (VR [VR [VN bh; VN ti]; VR [ic; VB []; VB []; VR [VN 0; VN 0]; VB []]; VR [VN oc; VB []; VB []]; VN amt; VB asset; VN gp]) .
-  Proof. intros H _. unfold ctx_agrees. cbn. rewrite H. reflexivity. Qed.
+  Proof. intros H. unfold ctx_agrees. cbn. rewrite H. reflexivity. Qed.
 End Restored.
+
+(* ================================================================ a context can serve as its own
+   decompression context: if every registration it hands out is "stable" (keeps holding while the
+   same transaction goes on), the facts of a whole compression hold in the final state *)
+Section OwnContext.
+  Variable St : Type.
+  Variable reg_compress : St -> N -> bytes -> option (St * N).
+  Variable utxo_compress : St -> val -> option (St * val).
+  Variable reg_get : St -> N -> N -> option bytes.
+  Variable utxo_get : St -> val -> option val.
+  Variable stable : St -> fact -> Prop.
+
+  Hypothesis stable_holds : forall s f, stable s f ->
+    match f with FReg ks k b => reg_get s ks k = Some b | FUtxo c u => utxo_get s c = Some u end.
+  Hypothesis reg_step : forall s ks b s' k, reg_compress s ks b = Some (s', k) ->
+    stable s' (FReg ks k b) /\ (forall f, stable s f -> stable s' f).
+  Hypothesis utxo_step : forall s u s' c, utxo_compress s u = Some (s', c) ->
+    stable s' (FUtxo c u) /\ (forall f, stable s f -> stable s' f).
+
+  Notation compress := (compress St reg_compress utxo_compress).
+  Notation compress_fields := (compress_fields St reg_compress utxo_compress).
+  Notation compress_variants := (compress_variants St reg_compress utxo_compress).
+
+  Definition good (s s' : St) (fs : list fact) : Prop :=
+    Forall (stable s') fs /\ (forall f, stable s f -> stable s' f).
+
+  Lemma good_app s s1 s2 f1 f2 : good s s1 f1 -> good s1 s2 f2 -> good s s2 (f1 ++ f2).
+  Proof.
+    intros [A1 B1] [A2 B2]. split.
+    - apply Forall_app. split; [|exact A2]. eapply Forall_impl; [|exact A1]. intros a. apply B2.
+    - intros f Hf. apply B2, B1, Hf.
+  Qed.
+
+  Lemma compress_list_good (cf : St -> val -> option (St * val * list fact)) :
+    (forall s v s' c f, cf s v = Some (s', c, f) -> good s s' f) ->
+    forall l s s' cs f, compress_list St cf s l = Some (s', cs, f) -> good s s' f.
+  Proof.
+    intros IH. induction l as [|x l IHl]; intros s s' cs f H; cbn [compress_list] in H.
+    - injection H as <- <- <-. split; [constructor | auto].
+    - destruct (cf s x) as [[[s1 c] f1]|] eqn:E1; [|discriminate].
+      destruct (compress_list St cf s1 l) as [[[s2 cs'] f2]|] eqn:E2; [|discriminate].
+      injection H as <- <- <-. eapply good_app; [eapply IH; exact E1 | eapply IHl; exact E2].
+  Qed.
+
+  Theorem own_facts_all :
+    (forall t s v s' c f, compress t s v = Some (s', c, f) -> good s s' f) /\
+    (forall fs s l s' cs f, compress_fields fs s l = Some (s', cs, f) -> good s s' f) /\
+    (forall vs i s l s' cs f, compress_variants vs i s l = Some (s', cs, f) -> good s s' f).
+  Proof.
+    apply cschema_mutind.
+    - intros dflt s v s' c f H. injection H as <- <- <-. split; [constructor | auto].
+    - intros s v s' c f H. injection H as <- <- <-. split; [constructor | auto].
+    - intros ks dflt s v s' c f H. destruct v as [| b | | | |]; try discriminate.
+      change (match reg_compress s ks b with Some (s', k) => Some (s', VN k, [FReg ks k b]) | None => None end = Some (s', c, f)) in H.
+      destruct (reg_compress s ks b) as [[s1 k]|] eqn:E; [|discriminate]. injection H as <- <- <-.
+      destruct (reg_step _ _ _ _ _ E) as [A B]. split; [constructor; [exact A | constructor] | exact B].
+    - intros s v s' c f H.
+      change (match utxo_compress s v with Some (s', c) => Some (s', c, [FUtxo c v]) | None => None end = Some (s', c, f)) in H.
+      destruct (utxo_compress s v) as [[s1 c1]|] eqn:E; [|discriminate]. injection H as <- <- <-.
+      destruct (utxo_step _ _ _ _ E) as [A B]. split; [constructor; [exact A | constructor] | exact B].
+    - intros t IH s v s' c f H. destruct v as [| | | l | |]; try discriminate.
+      change (match compress_list St (compress t) s l with Some (s', cs, f) => Some (s', VL cs, f) | None => None end = Some (s', c, f)) in H.
+      destruct (compress_list St (compress t) s l) as [[[s1 cs] f1]|] eqn:E; [|discriminate]. injection H as <- <- <-.
+      eapply compress_list_good; [exact IH | exact E].
+    - intros rk fs IH s v s' c f H. destruct v as [| | | | l |]; try discriminate.
+      change (match compress_fields fs s l with Some (s', cs, f) => Some (s', VR cs, f) | None => None end = Some (s', c, f)) in H.
+      destruct (compress_fields fs s l) as [[[s1 cs] f1]|] eqn:E; [|discriminate]. injection H as <- <- <-.
+      eapply IH; exact E.
+    - intros vs IH s v s' c f H. destruct v as [| | | | | i l]; try discriminate.
+      change (match compress_variants vs i s l with Some (s', cs, f) => Some (s', VE i cs, f) | None => None end = Some (s', c, f)) in H.
+      destruct (compress_variants vs i s l) as [[[s1 cs] f1]|] eqn:E; [|discriminate]. injection H as <- <- <-.
+      eapply IH; exact E.
+    - intros s l s' cs f H. destruct l; [|discriminate]. injection H as <- <- <-. split; [constructor | auto].
+    - intros n a m t IHt r IHr s l s' cs f H. destruct l as [|v l]; [discriminate|].
+      change ((if is_skipped a then compress_fields r s l
+               else match compress t s v with
+                    | Some (s1, c, f1) =>
+                        match compress_fields r s1 l with Some (s2, cs, f2) => Some (s2, c :: cs, f1 ++ f2) | None => None end
+                    | None => None
+                    end) = Some (s', cs, f)) in H.
+      destruct (is_skipped a); [eapply IHr; exact H|].
+      destruct (compress t s v) as [[[s1 c] f1]|] eqn:E1; [|discriminate].
+      destruct (compress_fields r s1 l) as [[[s2 cs'] f2]|] eqn:E2; [|discriminate].
+      injection H as <- <- <-. eapply good_app; [eapply IHt; exact E1 | eapply IHr; exact E2].
+    - intros i s l s' cs f H. discriminate.
+    - intros n fs IHfs r IHr i s l s' cs f H. destruct i as [|j]; [eapply IHfs | eapply IHr]; exact H.
+  Qed.
+
+  Theorem own_context_holds t s v s' c f :
+    compress t s v = Some (s', c, f) -> holds St reg_get utxo_get s' f.
+  Proof.
+    intros H. destruct (proj1 own_facts_all t s v s' c f H) as [A _]. clear H.
+    induction A as [|x l Hx _ IH]; [exact I|].
+    pose proof (stable_holds _ _ Hx) as Hh. destruct x; cbn [CompressModel.holds]; (split; [exact Hh | exact IH]).
+  Qed.
+End OwnContext.
